@@ -206,6 +206,9 @@ func scanStringLiteralToken(buf string, pos int) Token {
 			}
 			c2 := buf[pos+i]
 			bb.WriteByte(c2)
+		} else if c == '\n' {
+			// a line break inside "..." is part of the text; Go's interpreted literal needs the escape
+			bb.WriteString("\\n")
 		} else {
 			bb.WriteByte(c)
 		}
